@@ -5,6 +5,8 @@ import Proofs.InterpQuery
 import Proofs.InterpWF
 import Proofs.InterpOps
 import Proofs.InterpStore
+import Proofs.InterpAttr
+import Proofs.InterpNav
 
 /-!
   C04 — Interpreted OAL computes what the action language defines.
@@ -321,6 +323,95 @@ theorem store_observations {sch : Pyx.Meta.Schema} (R : Refines kname ι s st) (
     (∀ i, (st.links i).Nodup) :=
   ⟨fun _ hx => live_iff R A.pool hx, R.pool, R.srcOrd, R.tgtOrd, R.nodup⟩
 
+/-! ### attribute values in the refinement (Proofs/InterpAttr.lean)
+
+  The mechanism keeps the class's own id attribute in `Pyx.Meta.State.idOf`, resolves referential attributes through the
+  links (`Pyx.Meta.getAttr`, C02's `getAttr_own` / `getAttr_single`, reused) and the plain attributes in the instances'
+  dicts (`MDict`); `mGet` / `mSet` / `mNewDict` are getattr / setattr / the defaults of `MetaClass.new`.
+  `RefinesA` = `Refines` + equal plain values + id attribute = idOf + equal id generators. -/
+
+/-- reads agree: a plain attribute, the id attribute, and a referential attribute formalised by one association (the
+    identifier of the related instance, nothing when there is none) -/
+theorem attr_reads {decl : Nat → List AttrDecl} {at_ : Pyx.Meta.Attrs} {sch : Pyx.Meta.Schema} {d : MDict}
+    (hk : Function.Injective kname) (kinds : List Nat)
+    (R : RefinesA kname decl at_ sch ι s d st) (A : AllInv sch s) {x : Nat} (hx : Pyx.Meta.live s x)
+    (hkin : s.kindOf x ∈ kinds) {name : String} {a : AttrDecl}
+    (hfa : (decl (s.kindOf x)).find? (fun a => a.name = name) = some a) (fuel : Nat) :
+    (a.referential = false → isPlain sch at_ (s.kindOf x) name →
+        getAttr (ctxOfA kname decl kinds sch) (ι x) name st = .ok (mGet sch at_ s d fuel x name)) ∧
+    (DeclOk decl at_ sch (s.kindOf x) → at_.idName (s.kindOf x) = some name →
+        getAttr (ctxOfA kname decl kinds sch) (ι x) name st = .ok (mGet sch at_ s d (fuel + 1) x name) ∧
+        mGet sch at_ s d (fuel + 1) x name = .int (s.idOf x)) ∧
+    (∀ i pk, a.referential = true → Pyx.Meta.formalFrom (s.kindOf x) name 0 sch = [(i, pk)] →
+        (∀ o, o ∈ (s.links i).tgt x → s.kindOf o ∈ kinds ∧ DeclOk decl at_ sch (s.kindOf o) ∧
+          at_.idName (s.kindOf o) = some pk) →
+        getAttr (ctxOfA kname decl kinds sch) (ι x) name st = .ok (mGet sch at_ s d (fuel + 3) x name)) :=
+  ⟨fun hnr hpl => read_plain hk kinds R A hx hkin hfa hnr hpl fuel,
+   fun D hid => read_id hk kinds R A hx hkin D hid fuel,
+   fun _ _ hr hform hpk => read_ref hk kinds R A hx hkin hfa hr hform hpk fuel⟩
+
+/-- writes: `x.attr = v` on a plain attribute is accepted on both sides with corresponding results; on a referential
+    attribute it is rejected on both sides (MetaException / Spec error) -/
+theorem attr_writes {decl : Nat → List AttrDecl} {at_ : Pyx.Meta.Attrs} {sch : Pyx.Meta.Schema} {d : MDict}
+    (hk : Function.Injective kname) (kinds : List Nat)
+    (R : RefinesA kname decl at_ sch ι s d st) (A : AllInv sch s) {x : Nat} (hx : Pyx.Meta.live s x)
+    (hkin : s.kindOf x ∈ kinds) {name : String} {a : AttrDecl} (v : Val)
+    (hfa : (decl (s.kindOf x)).find? (fun a => a.name = name) = some a) :
+    (a.referential = false → tyMatches a.ty v = true → isPlain sch at_ (s.kindOf x) name →
+        ∃ st' d', setAttr (ctxOfA kname decl kinds sch) (ι x) name v st = .ok st' ∧
+          mSet sch at_ s d x name v = some (s, d') ∧ RefinesA kname decl at_ sch ι s d' st') ∧
+    (a.referential = true → Pyx.Meta.formalFrom (s.kindOf x) name 0 sch ≠ [] →
+        (∃ e, setAttr (ctxOfA kname decl kinds sch) (ι x) name v st = .error e) ∧ mSet sch at_ s d x name v = none) :=
+  ⟨fun hnr hty hpl => write_plain hk kinds R A hx hkin hfa hnr hty hpl,
+   fun hr hform => write_ref hk kinds R A hx hkin v hfa hr hform⟩
+
+/-- `new` with attributes: the same defaults on both sides (id attribute = next id of the equal generators) -/
+theorem attr_new {decl : Nat → List AttrDecl} {at_ : Pyx.Meta.Attrs} {sch : Pyx.Meta.Schema} {d : MDict}
+    (hk : Function.Injective kname) (kinds : List Nat)
+    (R : RefinesA kname decl at_ sch ι s d st) (A : AllInv sch s) (k : Nat) (hkin : k ∈ kinds)
+    (D : DeclOk decl at_ sch k) (hasId : Bool) (hhas : hasId = (at_.idName k).isSome) :
+    ∃ st', newInst (ctxOfA kname decl kinds sch) (kname k) st = .ok (⟨kname k, st.next (kname k)⟩, st') ∧
+      RefinesA kname decl at_ sch (extend ι s.count ⟨kname k, st.next (kname k)⟩) (Pyx.Meta.new s k hasId).1
+        ⟨mNewDict s.count (at_.idName k) (decl k) d.vals⟩ st' :=
+  new_refinesA hk kinds R A k hkin D hasId hhas
+
+/-- every history of new / relate / unrelate / delete AND attribute writes in the domain refines: corresponding stores
+    and corresponding valuations at the end (so every later read agrees, by `attr_reads`) -/
+theorem attr_refines {decl : Nat → List AttrDecl} {at_ : Pyx.Meta.Attrs} {sch : Pyx.Meta.Schema}
+    (hk : Function.Injective kname) (kinds : List Nat) (hok : SchemaOk sch)
+    (ι0 : Nat → Inst) (d0 : MDict) (ops : List AOp) (hd : DomA decl at_ sch kinds Pyx.Meta.init d0 ops) :
+    RefinesA kname decl at_ sch (specRunA kname decl at_ (ctxOfA kname decl kinds sch) sch ops Pyx.Meta.init d0 ι0 initState).1
+      (mRunA decl at_ sch ops Pyx.Meta.init d0).1 (mRunA decl at_ sch ops Pyx.Meta.init d0).2
+      (specRunA kname decl at_ (ctxOfA kname decl kinds sch) sch ops Pyx.Meta.init d0 ι0 initState).2 :=
+  Pyx.Interp.attr_refines hk kinds hok ι0 d0 ops hd
+
+/-! ### chain navigation over the refined store (Proofs/InterpNav.lean) -/
+
+/-- one navigation step — the direct link, or the two-hop `_find_assoc_links` through an association class with its
+    ordered-set union — returns on the named instance the named result in the same order; an unknown link is rejected
+    on both sides.  Guard: distinct link keys per class. -/
+theorem nav_step {sch : Pyx.Meta.Schema} (hk : Function.Injective kname) (kinds : List Nat)
+    (R : Refines kname ι s st) (A : AllInv sch s)
+    (hd : ∀ k, Pyx.Query.KeysDistinct (Pyx.Query.linkEntriesFrom k 0 sch)) {x : Nat} (hx : x < s.count)
+    (stp : Pyx.Query.Step) :
+    (∀ l, Pyx.Query.navigate sch s x stp.toKind stp.rel stp.phrase = some l →
+        navStep (ctxOf kname kinds sch) st (ι x) (toStep kname stp) = .ok (l.map ι) ∧ ∀ y ∈ l, y < s.count) ∧
+    (Pyx.Query.navigate sch s x stp.toKind stp.rel stp.phrase = none →
+        ∃ e, navStep (ctxOf kname kinds sch) st (ι x) (toStep kname stp) = .error e) :=
+  navigate_step_refines hk kinds R A hd hx stp
+
+/-- a chain `h->K1[R1]->K2[R2]…` (`Pyx.Query.navSeq`, C09) over a handle of created instances: the Spec chain returns
+    the named result in the same order, duplicates included; and `select many` de-duplicates alike -/
+theorem nav_chain {sch : Pyx.Meta.Schema} (hk : Function.Injective kname) (kinds : List Nat)
+    (R : Refines kname ι s st) (A : AllInv sch s)
+    (hd : ∀ k, Pyx.Query.KeysDistinct (Pyx.Query.linkEntriesFrom k 0 sch))
+    (steps : List Pyx.Query.Step) (h r : List Nat) (hl : ∀ x ∈ h, x < s.count)
+    (hq : Pyx.Query.navSeq sch s h steps = some r) :
+    navChain (ctxOf kname kinds sch) st (h.map ι) (steps.map (toStep kname)) = .ok (r.map ι) ∧
+    (navChain (ctxOf kname kinds sch) st (h.map ι) (steps.map (toStep kname))).map dedup =
+      .ok ((Pyx.Query.dedupFirst r).map ι) :=
+  ⟨navChain_refines hk kinds R A hd steps h r hl hq, navMany_refines hk kinds R A hd steps h r hl hq⟩
+
 end Store
 
 /-! ## the operator tables of interpret.py -/
@@ -350,7 +441,7 @@ theorem ops_table_lexemes_lower :
 
 def C0 : Ctx :=
   { classes := [⟨"A", [⟨"n", .integer, false⟩]⟩, ⟨"B", [⟨"n", .integer, false⟩]⟩],
-    assocs := [⟨"R1", "B", "A", "", "", true, false⟩] }
+    assocs := [{ rel := "R1", src := "B", tgt := "A", srcPhrase := "", tgtPhrase := "", srcMany := true, tgtMany := false }] }
 
 def st0 : State :=
   { live := fun c => if c = "A" then [0, 1] else [], next := fun c => if c = "A" then 2 else 0,
@@ -429,5 +520,46 @@ example : Function.Injective knameS := by
   simp only [knameS, String.toList_ofList] at h1
   have := congrArg List.length h1
   simpa using this
+
+/-- attribute refinement, non-vacuity: declarations consistent with the schema (`DeclOk`), and a history with attribute
+    writes in the domain `DomA` -/
+def declS (k : Nat) : List AttrDecl :=
+  if k = 0 then [⟨"ID", .uniqueId, false⟩, ⟨"A_ID", .uniqueId, true⟩, ⟨"n", .integer, false⟩]
+  else [⟨"ID", .uniqueId, false⟩, ⟨"n", .integer, false⟩]
+def atS : Pyx.Meta.Attrs := { idName := fun _ => some "ID" }
+
+example : DeclOk declS atS schS 0 ∧ DeclOk declS atS schS 1 := by
+  constructor
+  · refine ⟨by decide, ?_, ?_, ?_, by decide⟩
+    · intro a ha
+      have ha' : a ∈ ([⟨"ID", .uniqueId, false⟩, ⟨"A_ID", .uniqueId, true⟩, ⟨"n", .integer, false⟩] : List AttrDecl) := ha
+      simp only [List.mem_cons, List.not_mem_nil, or_false] at ha'
+      rcases ha' with rfl | rfl | rfl <;> decide
+    · intro n hn
+      simp only [atS, Option.some.injEq] at hn
+      subst hn
+      exact ⟨⟨"ID", .uniqueId, false⟩, by simp [declS], rfl, rfl, rfl⟩
+    · intro a ha hnr hu
+      have ha' : a ∈ ([⟨"ID", .uniqueId, false⟩, ⟨"A_ID", .uniqueId, true⟩, ⟨"n", .integer, false⟩] : List AttrDecl) := ha
+      simp only [List.mem_cons, List.not_mem_nil, or_false] at ha'
+      rcases ha' with rfl | rfl | rfl
+      · rfl
+      · cases hnr
+      · cases hu
+  · refine ⟨by decide, ?_, ?_, ?_, by decide⟩
+    · intro a ha
+      have ha' : a ∈ ([⟨"ID", .uniqueId, false⟩, ⟨"n", .integer, false⟩] : List AttrDecl) := ha
+      simp only [List.mem_cons, List.not_mem_nil, or_false] at ha'
+      rcases ha' with rfl | rfl <;> decide
+    · intro n hn
+      simp only [atS, Option.some.injEq] at hn
+      subst hn
+      exact ⟨⟨"ID", .uniqueId, false⟩, by simp [declS], rfl, rfl, rfl⟩
+    · intro a ha hnr hu
+      have ha' : a ∈ ([⟨"ID", .uniqueId, false⟩, ⟨"n", .integer, false⟩] : List AttrDecl) := ha
+      simp only [List.mem_cons, List.not_mem_nil, or_false] at ha'
+      rcases ha' with rfl | rfl
+      · rfl
+      · cases hu
 
 end PyxProps.C04
